@@ -531,25 +531,34 @@ func (e *Engine) emitGreedy(p *partition, survivors *[]*run) []map[string]any {
 	if len(p.pending) == 0 {
 		return nil // 默认贪婪模式每事件调用：无在途匹配时短路，避免无用 map 分配
 	}
-	active := make(map[int64]bool, len(*survivors))
-	for _, r := range *survivors {
-		active[r.startSeq] = true
-	}
-	var ready []int64
-	for s := range p.pending {
-		if !active[s] && s >= p.nextStart {
-			ready = append(ready, s)
-		}
-	}
-	sort.Slice(ready, func(i, j int) bool { return ready[i] < ready[j] })
 	var emitted []map[string]any
-	for _, s := range ready {
-		if s < p.nextStart {
-			continue // 被前一轮 SKIP 推进跳过（直接守卫，与 emitLazy 一致）
+	for {
+		// leftmost first: the smallest pending start that is still allowed
+		var s int64 = maxInt64
+		for k := range p.pending {
+			if k >= p.nextStart && k < s {
+				s = k
+			}
+		}
+		if s == maxInt64 {
+			break
+		}
+		// A run that started at or before s and is still being extended may yet yield
+		// the match that comes first (an earlier start) or is longer (the same start):
+		// s has to wait for it, or its emission would skip past that start.
+		blocked := false
+		for _, r := range *survivors {
+			if r.startSeq >= p.nextStart && r.startSeq <= s {
+				blocked = true
+				break
+			}
+		}
+		if blocked {
+			break
 		}
 		best := p.pending[s][0]
-		emitted = append(emitted, e.emitOne(p, best, survivors)...)
 		delete(p.pending, s)
+		emitted = append(emitted, e.emitOne(p, best, survivors)...)
 	}
 	e.prunePending(p, p.nextStart)
 	return emitted
